@@ -27,13 +27,11 @@ import (
 	"github.com/gogo/protobuf/proto"
 	"github.com/pingcap/kvproto/pkg/metapb"
 	"github.com/pingcap/kvproto/pkg/pdpb"
-	"github.com/pingcap/log"
 	"github.com/tikv/pd/pkg/mock/mockid"
 	"github.com/tikv/pd/server/cluster"
 	"github.com/tikv/pd/server/config"
 	"github.com/tikv/pd/server/core"
 	"github.com/tikv/pd/server/kv"
-	"go.uber.org/zap"
 	"pdverif/vkit"
 	"pdverif/vkit/faultkv"
 	"pgregory.net/rapid"
@@ -59,7 +57,7 @@ func init() {
 }
 
 func quiet() {
-	log.ReplaceGlobals(zap.NewNop(), &log.ZapProperties{Level: zap.NewAtomicLevel()})
+	vkit.SilenceLog()
 }
 
 // ---------------------------------------------------------------- case data
